@@ -121,7 +121,7 @@ func c07TreeBodyInner(t *c07Tree, kindSeed *int) *YMap { return c07TreeBody(t, k
 func init() {
 	Register(Meta{
 		ID: "C07", Level: "exploration",
-		Rule: "axes swept completely to a bound past every size-dependent cliff in the translator (26-entry variable list, `<var>s` plurals, X<n> fallback, counter digits): A1 every documented constraint kind (23 + a combination) and nested/atLeast/atMost x every path AST with <=2 (quick) / <=3 (thorough) leaves; A2 q=1..40 quantified sibling constraints under one map for each quantifier kind, and nested+atLeast+atMost on one path; A3 linear quantifier chains of depth 1..7 (quick) / 1..9 (thorough; the engine's compile time grows ~3.6x per level) and every ordered rooted tree of quantifiers with <=5 (quick) / <=6 (thorough) nodes x rotating quantifier kinds; A4 v=1..40 validations in three level distributions; A5 every C01 propositional formula of size <=1 (quick) / <=2 (thorough) under a quantifier preceded by q in {0,10,11,12,25,26,27} quantified siblings (so the formula meets every variable-index cliff). A6 every (quick: half of the) ordered pairs of constraint kinds on one property joined by or / if-then / not-and / or inside nested. Oracle: CompileProfile returns no error, and one evaluation on an empty graph and on a small graph returns no error (a policy rejected at first evaluation because generated rules collide is not 'accepted'). Non-trivial = every profile (each is a distinct well-formed program); distinct by text.",
+		Rule: "axes swept completely to a bound past every size-dependent cliff in the translator (26-entry variable list, `<var>s` plurals, X<n> fallback, counter digits): A1 every documented constraint kind (23 + a combination) and nested/atLeast/atMost x every path AST with <=2 (quick) / <=3 (thorough) leaves; A2 q=1..40 quantified sibling constraints under one map for each quantifier kind, and nested+atLeast+atMost on one path; A3 linear quantifier chains of depth 1..7 (quick) / 1..9 (thorough; the engine's compile time grows ~3.6x per level) and every ordered rooted tree of quantifiers with <=5 (quick) / <=6 (thorough) nodes x rotating quantifier kinds; A4 v=1..40 validations in three level distributions; A5 every C01 propositional formula of size <=1 (quick) / <=2 (thorough) under a quantifier preceded by q in {0,10,11,12,25,26,27} quantified siblings (so the formula meets every variable-index cliff). A7 profile names in several scripts and with reserved words. A6 every (quick: half of the) ordered pairs of constraint kinds on one property joined by or / if-then / not-and / or inside nested. Oracle: CompileProfile returns no error, and one evaluation on an empty graph and on a small graph returns no error (a policy rejected at first evaluation because generated rules collide is not 'accepted'). Non-trivial = every profile (each is a distinct well-formed program); distinct by text.",
 	}, c07Gen, c07Run)
 }
 
@@ -242,6 +242,11 @@ func c07Gen(tier string, emit func(c07Case)) {
 				emit(c07Case{"A6", fmt.Sprintf("%s and %s in shape %d", k1.name, k2.name, si), c07One(sh)})
 			}
 		}
+	}
+	// A7: the profile name only feeds a generated package name; any name must do
+	for _, name := range []string{"a", "A b", "1 starts with a digit", "Política de APIs públicas", "API-Richtlinien für Zahlungen", "プロファイル 1", "Правила API", "___", "-", "a/b\\c", "name with. dots.and:colons", "ÀÉÎ", "é combining", "tab\tin name", "package", "default", "data", "input", "with", "not", "😀", strings.Repeat("long name ", 30)} {
+		top := M("profile", YQ(name), "prefixes", M("ex", EX), "violation", strs("v"), "validations", M("v", M("message", "m", "targetClass", "ex.T", "propertyConstraints", M("ex.p1", M("minCount", 1)))))
+		emit(c07Case{"A7", fmt.Sprintf("profile name %q", name), EmitYAML(top)})
 	}
 	// A5
 	maxS := 1
